@@ -228,6 +228,30 @@ impl World {
     /// Runs one transactional call (one fault variant) on the real App and in the reference
     /// interpreter, from the current state, and lists all discrepancies.
     pub fn run_variant(&mut self, tx: &Tx, faults: &BTreeSet<Site>) -> Outcome {
+        self.run_variant_with(tx, faults, None)
+    }
+
+    /// the concrete top-level messages App::execute_multi would receive for this transaction
+    pub fn concrete_top(&self, tx: &Tx, faults: &BTreeSet<Site>) -> Option<(String, Vec<CosmosMsg<XMsg>>)> {
+        let it = Interp::new(self.st.clone(), &self.fx, tx, faults);
+        match &tx.kind {
+            TxKind::Exec { sender, msg, .. } => {
+                let s = it.aref(*sender);
+                let m = it.resolve_top(&s, std::slice::from_ref(msg));
+                Some((s, m))
+            }
+            TxKind::Multi { sender, msgs } => {
+                let s = it.aref(*sender);
+                let m = it.resolve_top(&s, msgs);
+                Some((s, m))
+            }
+            _ => None,
+        }
+    }
+
+    /// `concrete`: use these already resolved top-level messages instead of resolving the
+    /// transaction's symbolic ones against the current state
+    pub fn run_variant_with(&mut self, tx: &Tx, faults: &BTreeSet<Site>, concrete: Option<(String, Vec<CosmosMsg<XMsg>>)>) -> Outcome {
         let mut discs: Vec<Disc> = vec![];
         let pre_scan = scan(self.app.storage());
         let mut it = Interp::new(self.st.clone(), &self.fx, tx, faults);
@@ -239,6 +263,10 @@ impl World {
             Mint(String, Vec<Coin>),
         }
         let (pred_res, call): (Result<Vec<Resp>, ()>, Call) = match &tx.kind {
+            TxKind::Exec { via, .. } if concrete.is_some() => {
+                let (s, msgs) = concrete.clone().unwrap();
+                (it.top_multi_concrete(&s, &msgs), Call::Multi(Addr::unchecked(s), msgs, *via))
+            }
             TxKind::Exec { sender, msg, via } => {
                 let s = it.aref(*sender);
                 let msgs = it.resolve_top(&s, std::slice::from_ref(msg));
@@ -333,7 +361,7 @@ impl World {
             }
         }
         let act = Actual { ok: act_ok, panic: panic.clone(), responses: act_resps, trace };
-        let pred = Pred { fail_before: std::mem::take(&mut it.fail_before), ok: pred_res.is_ok(), responses: pred_resps, trace: std::mem::take(&mut it.trace), whys: std::mem::take(&mut it.whys), failures: it.failures, caught: it.caught, sites: it.sites.clone() };
+        let pred = Pred { ever_written: it.ever_written.clone(), fail_before: std::mem::take(&mut it.fail_before), ok: pred_res.is_ok(), responses: pred_resps, trace: std::mem::take(&mut it.trace), whys: std::mem::take(&mut it.whys), failures: it.failures, caught: it.caught, sites: it.sites.clone() };
         let _ = helper_note;
 
         // ---- model-free: all-or-nothing
@@ -563,12 +591,19 @@ impl TreeCheck {
                                 restore(w.app.storage_mut(), &pre_real);
                                 w.st = pre_model.clone();
                                 w.ever = pre_ever.clone();
-                                let mut clean = true;
-                                for m in msgs {
-                                    let single = Tx { kind: TxKind::Exec { sender: *sender, msg: m.clone(), via: Via::Execute }, nodes: tx.nodes.clone(), qnodes: tx.qnodes.clone() };
-                                    if !w.run_variant(&single, faults).discs.is_empty() {
-                                        clean = false;
-                                        break;
+                                // the very same concrete messages (resolved against the pre-state, as
+                                // execute_multi received them), each through App::execute
+                                let mut clean = false;
+                                if let Some((s, concrete)) = w.concrete_top(tx, faults) {
+                                    clean = true;
+                                    for (m, c) in msgs.iter().zip(concrete.into_iter()) {
+                                        let single = Tx { kind: TxKind::Exec { sender: *sender, msg: m.clone(), via: Via::Execute }, nodes: tx.nodes.clone(), qnodes: tx.qnodes.clone() };
+                                        let o = w.run_variant_with(&single, faults, Some((s.clone(), vec![c])));
+                                        // conclusive only if every message succeeds alone and behaves as specified
+                                        if !o.discs.is_empty() || !o.pred_ok {
+                                            clean = false;
+                                            break;
+                                        }
                                     }
                                 }
                                 if clean {
